@@ -37,6 +37,9 @@ pub struct Chunk {
     pub cuts: Vec<usize>,
     /// scheduler yields before this chunk
     pub delay: usize,
+    /// reserve mode: scheduler yields between being assigned capacity and sending (capacity held unused)
+    #[serde(default)]
+    pub hold: usize,
 }
 
 #[derive(Clone, Debug, PartialEq, Serialize, Deserialize)]
@@ -200,7 +203,7 @@ fn gen_chunks(t: &mut Tape, allow_big: bool) -> Vec<Chunk> {
                 _ => t.below(3000),
             };
             let nc = t.below(3);
-            Chunk { len, reserve: t.chance(1, 3), cuts: (0..nc).map(|_| t.below(len.max(1))).collect(), delay: if t.chance(1, 3) { t.below(6) } else { 0 } }
+            Chunk { len, reserve: t.chance(1, 3), cuts: (0..nc).map(|_| t.below(len.max(1))).collect(), delay: if t.chance(1, 3) { t.below(6) } else { 0 }, hold: if t.chance(1, 5) { 1 + t.below(12) } else { 0 } }
         })
         .collect()
 }
@@ -390,7 +393,7 @@ pub fn empty_msg() -> Msg {
 
 pub fn default_req(key: u32) -> Req {
     let mut resp = empty_msg();
-    resp.chunks = vec![Chunk { len: 10, reserve: false, cuts: vec![], delay: 0 }];
+    resp.chunks = vec![Chunk { len: 10, reserve: false, cuts: vec![], delay: 0, hold: 0 }];
     Req {
         id: key,
         method: "GET".into(),
@@ -543,6 +546,9 @@ async fn send_body(mut st: SendStream<SegBuf>, m: Msg, key: u32, side: Side, log
                             // reported by the C16 oracle; avoid spinning
                             yield_now().await;
                             continue;
+                        }
+                        if ch.hold > 0 {
+                            yield_n(ch.hold).await;
                         }
                         let k = c.min(left);
                         let data = body_bytes(key, side, off, k);
@@ -1167,8 +1173,17 @@ pub fn run_pair(case: &PairCase) -> PairRun {
 
 /// `raw`: (which side is h2, the scripted peer for the other side)
 pub fn run_sim(case: &PairCase, raw: Option<(Side, Rc<crate::sim_raw::RawSpec>, Rc<RefCell<crate::sim_raw::PeerObs>>)>) -> PairRun {
+    run_sim_cap(case, raw, None)
+}
+
+/// `e_out_cap`: finite capacity of the pipe that carries the h2 endpoint's output (RAW modes)
+pub fn run_sim_cap(case: &PairCase, raw: Option<(Side, Rc<crate::sim_raw::RawSpec>, Rc<RefCell<crate::sim_raw::PeerObs>>)>, e_out_cap: Option<usize>) -> PairRun {
     let mut exec = Exec::new(case.sched.clone());
     let (cio, sio, wire) = duplex(&exec, case.chunk_c2s.clone(), case.chunk_s2c.clone(), case.vectored_c, case.vectored_s);
+    if let (Some(cap), Some((side, _, _))) = (e_out_cap, raw.as_ref()) {
+        let p = if *side == Side::Server { &wire.s2c } else { &wire.c2s };
+        p.borrow_mut().cap = cap.max(64);
+    }
     if let Some(f) = &case.fault {
         let p = if f.c2s { &wire.c2s } else { &wire.s2c };
         p.borrow_mut().cut_at = Some((f.at, f.kind));
